@@ -750,6 +750,40 @@ def prop_C05(ctx):
                                'most-specific-instruction rule vs implementation, impl by impl', key='chain',
                                extra={'impl_got': text[:1500], 'impl_expected': want[:1500]})
         ctx.cov['contexts_checked_' + shape] = nctx
+    # argument-less instructions (`#[into]`, `#[into()]`, `#[into(A| )]`) take part in the chain like any other (into side only: under
+    # From an instruction with neither member nor expression is finding F-16i)
+    iforms = gen.c05_into_forms()
+    isel = [()] + [(f,) for f in iforms] + [(f, g) for f in iforms for g in iforms if f[2] or g[2]]
+    if q:
+        isel = isel[:1 + len(iforms)] + sample(ctx.rng, isel[1 + len(iforms):], 1200)
+    built = [gen.c05_into_item(list(fs)) for fs in isel]
+    recs = ctx.run_set('chain_argumentless', [b[0] for b in built], vlib.obs_full)
+    base = {}
+    for r in recs:
+        if len(r['item'].meta['forms']) <= 1 and vlib.outcome_class(r['out']) == 'ok':
+            base[tuple(r['item'].meta['forms'])] = impls_by_header(r['out'])
+    nctx = 0
+    for r, (_, attrs) in zip(recs, built):
+        fs = r['item'].meta['forms']
+        if len(fs) < 2 or vlib.outcome_class(r['out']) != 'ok':
+            continue
+        for hdr, text in impls_by_header(r['out']).items():
+            kfc = oracles.header_context(hdr)
+            if kfc is None:
+                continue
+            kind, fallible, cp = kfc
+            w = oracles.winner(attrs, kind, fallible, cp)
+            ref = base.get((fs[w],) if w is not None else (), {}).get(hdr)
+            if ref is None:
+                continue
+            nctx += 1
+            want = ref.replace('e1', 'e%d' % (w + 1)) if w is not None else ref
+            if text != want:
+                ctx.report(r, 'conversion (%s, fallible=%s, %s): the instruction that should take effect is %s, but the impl is not the one generated '
+                           'when only that instruction is present' % (kind, fallible, cp, ('#%d %s' % (w + 1, attrs[w].render())) if w is not None else 'none'),
+                           'most-specific-instruction rule vs implementation, impl by impl', key='chain-argumentless',
+                           extra={'impl_got': text[:1500], 'impl_expected': want[:1500]})
+    ctx.cov['contexts_checked_argumentless'] = nctx
     # the same rule one level down (ParentChildField::get_for_kind): the instruction of exactly the kind, else (into_existing) the into one
     names = gen.NESTED_MAP_NAMES
     sel = [()] + [(a,) for a in names] + [(a, b) for a in names for b in names] + \
@@ -1219,6 +1253,23 @@ def c08_facts(sem, it):
                 fields = [oracles.sval(x[1]) for x in e[2:] if x[0] == 'f']
                 if not restx or restx[0][0] != 'rest' or oracles.nsp(oracles.sem_text(restx[0][1])) != want:
                     problems.append('..update: expected `..%s` as the base of the literal' % want)
+                # every literal the instruction builds - the nested ones of #[child] / parameterised #[parent] members too - is closed by it
+                def nested_literals(x):
+                    if isinstance(x, list):
+                        if x and x[0] == 'struct':
+                            yield x
+                        for y in x[1:]:
+                            if isinstance(y, list) and y and y[0] in ('rest', 'rest-empty'):
+                                continue          # the update expression itself may be a literal of the user
+                            for z in nested_literals(y):
+                                yield z
+                for fx in e[2:]:
+                    if fx[0] != 'f':
+                        continue
+                    for lit in nested_literals(fx[2] if len(fx) > 2 else None):
+                        lrest = [x for x in lit[2:] if x[0] in ('rest', 'rest-empty')]
+                        if it.meta.get('nested') and (not lrest or lrest[0][0] != 'rest' or oracles.nsp(oracles.sem_text(lrest[0][1])) != want):
+                            problems.append('..update: the nested literal %s is not closed by `..%s`' % (oracles.sval(lit[1]), want))
                 exp_fields = expected_literal_fields(it, kind)
                 if exp_fields is not None and sorted(fields) != sorted(exp_fields):
                     problems.append('..update: the literal lists %r, the member instructions provide %r' % (sorted(fields), sorted(exp_fields)))
@@ -1233,7 +1284,7 @@ def expected_literal_fields(it, kind):
     out = []
     for f in it.members:
         names = [a.name for a in f.attrs]
-        if 'parent' in names:
+        if 'parent' in names or 'child' in names:
             return None
         if 'ghost' in names:
             continue
@@ -1391,8 +1442,8 @@ def prop_C02(ctx):
 # ---------------------------------------------------------------------------------------------- C09
 def pat_matches(pat, lit):
     """does the (integer or string) literal `lit` match pattern text `pat`?  None when not decidable here"""
-    pat = pat.replace(' ', '')
-    lit = lit.replace(' ', '')
+    pat = oracles.nsp(pat)
+    lit = oracles.nsp(lit)
     for alt in pat.split('|'):
         if alt == '_':
             return True
@@ -1441,7 +1492,7 @@ def prop_C09(ctx):
             n += 1
             if kind.startswith('from'):
                 # arms in variant declaration order: literal / pattern of each variant => that variant; then the default case
-                want = [((v['lit'] or v['pat']).replace(' ', ''), ('expr', 'E::' + v['name'])) for v in spec if (v['lit'] or v['pat'])]
+                want = [(oracles.nsp(v['lit'] or v['pat']), ('expr', 'E::' + v['name'])) for v in spec if (v['lit'] or v['pat'])]
                 plain = [v for v in spec if not (v['lit'] or v['pat'])]
                 got = [(p, b) for p, b in arms]
                 got_lp = [(p, b) for p, b in got if not re.fullmatch(re.escape(cp_now) + r'::V\d+', p)]
@@ -1459,7 +1510,7 @@ def prop_C09(ctx):
                 want = []
                 for v in spec:
                     if v['lit'] is not None:
-                        want.append(('E::' + v['name'], ('expr', v['lit'].replace(' ', ''))))
+                        want.append(('E::' + v['name'], ('expr', oracles.nsp(v['lit']))))
                     elif v['pat'] is not None and v['into'] is not None:
                         want.append(('E::' + v['name'], ('expr', oracles.nsp(v['into']))))
                     else:
@@ -1600,6 +1651,25 @@ def c03_leaf_places(e, path, out):
             c03_leaf_places(a, path + [str(i)], out)
     else:
         out.setdefault(oracles.sem_text(e), []).append('.'.join(path))
+
+
+def c03_existing_no_overwrite(ctx, r, ims):
+    n = 0
+    for key, imp in ims:
+        if key is None or not key[0].endswith('existing'):
+            continue
+        asg = oracles.existing_assignments(imp, key[1])
+        if asg is None:
+            continue
+        n += 1
+        seen = {}
+        for place, v in asg:
+            if place in seen and seen[place] != v and 'self.' in v and 'self.' in seen[place]:
+                ctx.report(r, 'into_existing (%s, fallible=%s) assigns two different members to one place: %s = %s and later %s = %s'
+                           % (key[0], key[1], place, seen[place], place, v), 'assignments of the syn-parsed into_existing body', key='existing-overwrites')
+                break
+            seen[place] = v
+    return n
 
 
 def c03_flavour_paths(ctx, r, ims):
@@ -1806,6 +1876,11 @@ def prop_C03(ctx):
                                    'nesting tree vs syn-parsed body', key=cell)
         elif it.meta['gen'] == 'c03_hinted' and not interleaved:
             n += c03_flavour_paths(ctx, r, ims)
+            n += c03_existing_no_overwrite(ctx, r, ims)
+        elif it.meta['gen'] == 'c03_hinted':
+            # any order of the flat fields: into_existing must not write two of its members to one place (members of one tuple-shaped
+            # container are numbered by their position among that container's members, however they interleave with the others)
+            n += c03_existing_no_overwrite(ctx, r, ims)
         elif it.meta['gen'] == 'c03_parent' and it.shape == 'named':
             n += c03_parent_oracle(ctx, r, it, ims)
         elif it.meta['gen'] == 'c03_bare_parent':
